@@ -171,14 +171,14 @@ def run_geophires(params, stages=('calculated',), want_report=True, want_result=
     return out
 
 
-def run_hip(params, stages=('calculated',), want_report=True) -> dict:
+def run_hip(params, stages=('calculated',), want_report=True, path=None) -> dict:
     os.environ['GEOPHIRES_X_VERIF'] = '1'
     from hip_ra_x import HipRaXClient, hip_ra_x
     from hip_ra import HipRaInputParameters
 
     logging.disable(logging.CRITICAL)
     tmp = Path(tempfile.gettempdir())
-    inp = tmp / f'hip_{uuid.uuid4().hex}.txt'
+    inp = Path(path) if path else tmp / f'hip_{uuid.uuid4().hex}.txt'   # `path`: re-use (rewrite) one input file across runs
     inp.write_text(params_to_text(params))
     out: dict = {'ok': False, 'error': None, 'snaps': {}, 'report': None}
 
@@ -206,8 +206,9 @@ def run_hip(params, stages=('calculated',), want_report=True) -> dict:
         out['error'] = f'{type(e).__name__}: {e}'
     finally:
         hip_ra_x._VERIF_OBSERVERS.remove(obs)
-        with contextlib.suppress(OSError):
-            os.unlink(inp)
+        if not path:
+            with contextlib.suppress(OSError):
+                os.unlink(inp)
         if res is not None:
             with contextlib.suppress(OSError):
                 os.unlink(res.output_file_path)
